@@ -87,3 +87,17 @@ def C08(t0):
         bounds=['all coordinates symbolic; representatives: rescaling by lam != 0, coset shift (-X,-Y,Z,T)'],
         trusted=[T_RUSTC, T_ARK, 'contract S and the scaling lemma (as in C03)', '"equal iff same encoding" additionally needs the Decaf injectivity theorem (not decided); decided here: == is exactly X1*Y2 == Y1*X2, and hashing sees only encoding bytes which C03 shows representation-independent'],
         assumptions=['arkworks inner-point Hash/PartialEq/is_zero modelled by their documented behaviour (affine normalisation; (0,1) test)'])
+
+def C05(t0):
+    from . import group, consts
+    _warm()
+    jobs = [(f'min ladder CT={ct} limbs={n}', group.check_min_ladders, (5, (ct, n))) for ct in (True, False) for n in range(1, 6)] + [ ('min ladder wrappers', group.check_scalar_mul_wiring, ('min',)), ('ark scalar-mul wiring', group.check_scalar_mul_wiring, ('ark',)),
+            ('ark Mul forms', group.sweep_operator_forms, ('ark', ['src/ark_curve/ops/projective.rs', 'src/ark_curve/ops/affine.rs'])), ('min Mul forms', group.sweep_operator_forms, ('min', ['src/min_curve/ops.rs'])),
+            ('ark group order', consts.check_group_order, ('ark',)), ('min group order', consts.check_group_order, ('min',))]
+    obs = par.run_groups(jobs)
+    return finish('C05', obs, t0, level='proof',
+        functions=['min_curve Element::scalar_mul_both::<true|false>, scalar_mul, scalar_mul_vartime', 'all Mul/MulAssign impls (both builds)', 'Group::mul_bigint, AffineRepr::mul_bigint, Element::vartime_multiscalar_mul', 'Element::GENERATOR (order)'],
+        bounds=['ladders: slices of 1..=5 symbolic 64-bit limbs (320 bits, longer than the modulus); longer slices outside the claim', 'multiscalar: 0..=3 pairs (5 in thorough) and unequal lengths',
+                'mul_bigint: integers of 1, 4, 5, 6 limbs with concrete values (wiring only)'],
+        trusted=[T_RUSTC, T_ARK + ": ark-ec's scalar multiplication / mul_bigint / default VariableBaseMSM for the inner points", 'each ladder step is the group law (C04); group axioms; r prime; "r times any element" is Lagrange on valid representatives'],
+        assumptions=['the ladder is interpreted over the free cyclic group generated by its base point (an identity there holds in every group)'])
